@@ -422,6 +422,8 @@ PROBES = [
     "a = [((a) / b) .size 3 => c]", "g //= ((uint) / x)", "g = ? ((a) / b)", "a = [(a) .size 3 => b]", "a = [((a))]", "a = [((a)) / b]",
     "a = #6.<{'k': 1}>(x)", "a = #7.<'a\\qb'>", "a = #6.<\"\\ud800\">(tstr)", "a = #6.<[h'zz']>(x)", "a = #6.<99999999999999999999999>(x)",
     "g //= h'00' : 10", "g = + h'00' : 10", "$$gs= +h'00' :0X0a", "a = [h'00' : 10]", "a = {b64'AQ==': 1}", "g = ? 'k': 1", "a = #6.<{h'00': 1}>(x)",
+    "a = [# 1.5:bstr]", "a = [ k : #7.1 (x) => y ]", "a = [#7.1 (x) => y]", "a = [#7.1 (a: int)]", "a = [# (x) => y]", "a = [#(x) => y]",
+    "a = [#1 (a: int)]", "a = [#1.2 (x)]", "a = [# ;c\n 1]", "a = [ 1.5 : #7.0x1F ( \"x\")=> [y] ]",
     "a = {$a: 1}", "a = {$a<b>: 1}", "a = [a: x / h\"ab\" => c]", "a = [a: x / h'00' => c]", "a = [a: x / H'00' => c]", "a = [*0]", "a = 0b1 = 2",
     "a = [1p3]", "a = [0x1p3]", "a = [0x1.8p3]", "a = -0x1p-2 b = 1", "g = (#6.1 : 1)", "a = b .abnfb\nx..y", "a = b .hexlc x..y",
 ]
